@@ -7,14 +7,13 @@ ID = "C13"; MODEL = "life"; IMPL = "life"
 COQ_PROP = "Properties/C13.v"; COQ_DIRS = ["Common", "Life"]
 COQ_MODULE = "Life.Model"; RUN_FN = "run"
 THEOREMS = ["C13_contained", "C13_errors_exact", "C13_ok_only_if_no_uncaught_panic", "C13_globals_released",
-            "C13_others_as_if_silent_partial"]
+            "C13_others_as_if_silent"]
 QUICK_N = 2500; THOROUGH_N = 120000
 RULE = ("scripts as for C09 (2..4 scripted modules with handler / start / task / end programs, injected messages) with panic!() placed in "
         "handle_message, at_sim_start (initial and restarts), at_sim_end and in spawned tasks: every (module, callback kind, program, "
         "position) of a healthy base simulation, both stereotypes (on_panic_catch true / false), one or several panicking modules, panics "
         "after a shutdown request in the same callback; each script is simulated twice in one process, and for single-stage modules a "
-        "third time with the panics of one module replaced by 'quiet' (falls silent) to compare the other modules' logs (all modules "
-        "but catching ones with several stages).  "
+        "third time with the panics of one module replaced by 'quiet' (falls silent) to compare the other modules' logs.  "
         "non-trivial = distinct script whose run contains a callback panic and a later event of another module")
 TRUSTED = c09.TRUSTED + [
     "a callback panic is observed through the record the scripted callback writes just before panic!(); the error list is read from the "
@@ -31,8 +30,8 @@ CLAIM = dict(
          "shutdow_and_restart before it panicked; (2) errors_exact: the PanicError entries of the returned error are exactly the callback "
          "panics of non-catching modules, one per panic, in the order of the panics (so Ok only if there is none); (3) globals_released: "
          "after every start-up step and every dispatched event, panicking ones included, the module-context slot is empty and the event "
-         "buffer drained, and the slot is empty after every at_sim_end; (4) others_as_if_silent (partial): for a module m that does not "
-         "catch panics (any number of start-up stages) or has a single stage, every record of every other module during start-up and event dispatch is the same as in the run where m's "
+         "buffer drained, and the slot is empty after every at_sim_end; (4) others_as_if_silent: for every module m (any stereotype, any "
+         "number of start-up stages), every record of every other module during start-up and event dispatch is the same as in the run where m's "
          "callbacks fall silent (return, request shutdown unless a request is pending, polled tasks end) wherever they panic -- proved "
          "as a two-phase simulation (equal worlds until the panic; afterwards equal up to events that are inert for a dead m).  Tied to "
          "des on every invocation by differential runs (panic!() in scripted callbacks and tasks on the real runtime, set_stereotyp, "
@@ -43,10 +42,9 @@ CLAIM = dict(
          "observed through the second simulation. Panics inside spawned tasks are caught by tokio and reported as JoinErrors by at_sim_end "
          "(try_join); they do not deactivate the module (the property text says they should; the code does not) -- the claim covers callback "
          "panics; JoinError entries are only checked by the monitor (each has a panicked task). (4) was false for every multi-stage module "
-         "before 1526470 (the start-up sweep ran the later stages of a module whose stage 0 panicked; Refuted/C13.v (a), "
-         "corpus/C13/multistage_panic.txt) and is still FALSE for catching modules with several stages: module_restart goes on with the "
-         "later stages after a caught panic, polls the tasks spawned before it, and a task can restart the module and send "
-         "(Refuted/C13.v (b), proposed patch fixes/F17.diff); the tear-down "
+         "before 1526470 (the start-up sweep ran the later stages of a module whose stage 0 panicked) and for catching multi-stage "
+         "modules before 9e87d89 (module_restart went on with the later stages after a caught panic): Refuted/C13.v, "
+         "corpus/C13/multistage_panic.txt; (4) covers start-up and event dispatch: the tear-down "
          "records of other modules agree only up to the final time stamp (left-over wake-ups of the dead module move the end of the "
          "simulation) -- checked by the monitor, not proved. at_sim_end is called on panicked modules too.",
     technique="Coq: trace invariants over a step relation (panic => inactive, inactive => no records), error-list bookkeeping, and a "
@@ -124,12 +122,6 @@ def proj(rs, m):
     return body + tail + [r for r in errs if r[2] == m]
 
 
-def compared(d, m):
-    """the falls-silent comparison is claimed for every module except a catching one with several start-up stages
-    (module_restart goes on with the later stages after a caught panic: Refuted/C13.v (b), fixes/F17)"""
-    return d["mods"][m]["stages"] == 1 or not d["mods"][m]["catch"]
-
-
 def monitor(script, out):
     """C13 evaluated on the implementation's log alone"""
     try:
@@ -148,13 +140,12 @@ def monitor(script, out):
                 for p in ps:
                     p[:] = [("quiet",) if x[0] == "panic" else x for x in p]
             check_panics(dq, v)
-            if compared(d, m):
-                for o in range(len(d["mods"])):
-                    if o != m and proj(a, o) != proj(v, o):
-                        pa, pv = proj(a, o), proj(v, o)
-                        i = next((j for j in range(min(len(pa), len(pv))) if pa[j] != pv[j]), min(len(pa), len(pv)))
-                        return ("module %d is disturbed by the panic of module %d: its record %d is %s, but %s in the run where module %d "
-                                "merely falls silent" % (o, m, i, pa[i] if i < len(pa) else "missing", pv[i] if i < len(pv) else "missing", m))
+            for o in range(len(d["mods"])):
+                if o != m and proj(a, o) != proj(v, o):
+                    pa, pv = proj(a, o), proj(v, o)
+                    i = next((j for j in range(min(len(pa), len(pv))) if pa[j] != pv[j]), min(len(pa), len(pv)))
+                    return ("module %d is disturbed by the panic of module %d: its record %d is %s, but %s in the run where module %d "
+                            "merely falls silent" % (o, m, i, pa[i] if i < len(pa) else "missing", pv[i] if i < len(pv) else "missing", m))
     except (ValueError, Bad) as e:
         return str(e)
     return None
@@ -203,7 +194,9 @@ def mechanisms(script, out):
     if not run.errs and panics:
         ms.add("run_ok_all_caught")
     if v is not None:
-        ms.add("silent_variant_compared" if compared(d, d["variant"]) else "silent_variant_run")
+        ms.add("silent_variant_compared")
+        if d["mods"][d["variant"]]["stages"] > 1 and d["mods"][d["variant"]]["catch"]:
+            ms.add("silent_variant_catching_multi_stage")
         if d["mods"][d["variant"]]["stages"] > 1:
             ms.add("silent_variant_multi_stage")
     return ms
